@@ -11,7 +11,20 @@
    the ABI allows (rbp = 0 mod 16).  One action per loop iteration; all sequences of
    <= MaxLocals locals over the (size, alignment, is-array) alphabet.
    Variant "no_alignas" (var->align ignored, the type's alignment used) and "no_array16" are
-   sensitivity controls.  With MaxAlign = 32 the model is REJECTED as it stands: rbp is only
+   sensitivity controls.
+
+   Initialisation in a live frame (ND_MEMZERO, codegen.c; lvar_initializer, parse.c).  All locals of a
+   function - named objects of every block and compound literals - own their bytes for the whole call, and
+   the order in which their initialisations are EXECUTED is not the order in which they were declared (=
+   the order of the frame): a declaration is reached again through a backward goto while objects declared
+   after it hold values; compound literals that are siblings in one argument list or in a designated
+   initializer list are evaluated in an order of the implementation's choosing.  Reinit(i) = the
+   declaration / compound literal of local i is reached while every other local is live: Level I's zero
+   fill `rep stosb` writes zr = [offset, offset + size).  Level A (C04: "no neighbouring object is
+   disturbed"; 6.7.9p19/p21: all of the object is initialised): InitCovers - every byte of the object is
+   written; InitExact - no byte of another local and no byte outside the frame is.  Bytes of padding between
+   locals may be written.  Variants "zero_round8" (the fill is done in quadwords when the offset is a multiple
+   of 8: size rounded up) and "zero_down8" (size rounded down) are sensitivity controls.  With MaxAlign = 32 the model is REJECTED as it stands: rbp is only
    16-byte aligned, so rbp - 32k is not a multiple of 32 (recorded finding: over-aligned locals). *)
 EXTENDS Integers, Sequences, TLC
 
@@ -21,21 +34,30 @@ AlignTo(n, a) == ((n + a - 1) \div a) * a
 Mx(a, b) == IF a > b THEN a ELSE b
 (* alphabet: size, natural alignment of the type, _Alignas (0 = none), array? *)
 Kinds == { [sz |-> s, tal |-> t, ual |-> x, arr |-> r] :
-             s \in {1, 3, 8, 16, 17}, t \in {1, 8, 16}, x \in {0, 16, 32}, r \in BOOLEAN } 
+             s \in {1, 3, 8, 16, 17}, t \in {1, 8, 16}, x \in {0, 8, 16, 32}, r \in BOOLEAN } 
 Valid(k) == /\ k.sz % k.tal = 0 /\ (k.ual = 0 \/ k.ual >= k.tal) /\ k.ual <= MaxAlign
             /\ (k.tal = 16 => k.sz % 16 = 0)
+            /\ (k.arr => k.sz >= 16)              \* being an array matters from 16 bytes on only
 Req(k) == IF k.ual > 0 THEN k.ual ELSE k.tal                     \* the alignment C requires
 
-VARIABLES locals, offs, bottom
-vars == <<locals, offs, bottom>>
-Init == locals = <<>> /\ offs = <<>> /\ bottom = 0
+VARIABLES locals, offs, bottom,
+          zr        \* <<>>, or <<i, lo, hi>>: local i has just been (re-)initialised, its zero fill wrote rbp+[lo, hi)
+vars == <<locals, offs, bottom, zr>>
+Init == locals = <<>> /\ offs = <<>> /\ bottom = 0 /\ zr = <<>>
 Add(k) ==
   LET va == IF Variant = "no_alignas" THEN k.tal ELSE Req(k)
       al == IF k.arr /\ k.sz >= 16 /\ Variant # "no_array16" THEN Mx(16, va) ELSE va
       b2 == AlignTo(bottom + k.sz, al)
   IN /\ Len(locals) < MaxLocals /\ Valid(k)
-     /\ locals' = Append(locals, k) /\ offs' = Append(offs, -b2) /\ bottom' = b2
-Next == \E k \in Kinds : Add(k)
+     /\ locals' = Append(locals, k) /\ offs' = Append(offs, -b2) /\ bottom' = b2 /\ zr' = <<>>
+(* ND_MEMZERO: mov $size, %rcx; lea offset(%rbp), %rdi; mov $0, %al; rep stosb *)
+ZeroRange(i) ==
+  LET o == offs[i]  sz == locals[i].sz
+  IN CASE Variant = "zero_round8" /\ o % 8 = 0 /\ sz <= 64 -> <<o, o + AlignTo(sz, 8)>>
+       [] Variant = "zero_down8" /\ sz >= 8 -> <<o, o + (sz \div 8) * 8>>
+       [] OTHER -> <<o, o + sz>>
+Reinit(i) == /\ i \in DOMAIN locals /\ zr' = <<i>> \o ZeroRange(i) /\ UNCHANGED <<locals, offs, bottom>>
+Next == (\E k \in Kinds : Add(k)) \/ (\E i \in 1..MaxLocals : Reinit(i))
 Spec == Init /\ [][Next]_vars
 
 StackSize == AlignTo(bottom, 16)
@@ -44,6 +66,10 @@ Disjoint == \A i, j \in DOMAIN locals : i < j =>
               (offs[i] + locals[i].sz <= offs[j] \/ offs[j] + locals[j].sz <= offs[i])
 InFrame == \A i \in DOMAIN locals : -StackSize <= offs[i] /\ offs[i] + locals[i].sz <= 0
 Aligned == \A i \in DOMAIN locals : \A rbp \in Rbps : (rbp + offs[i]) % Req(locals[i]) = 0
+(* initialisation of one local in a live frame *)
+InitCovers == zr # <<>> => (zr[2] <= offs[zr[1]] /\ offs[zr[1]] + locals[zr[1]].sz <= zr[3])
+InitExact  == zr # <<>> => /\ -StackSize <= zr[2] /\ zr[3] <= 0
+                           /\ \A j \in DOMAIN locals \ {zr[1]} : (zr[3] <= offs[j] \/ offs[j] + locals[j].sz <= zr[2])
 (* psABI: an array of at least 16 bytes is 16-byte aligned *)
 Array16 == \A i \in DOMAIN locals : (locals[i].arr /\ locals[i].sz >= 16) => \A rbp \in Rbps : (rbp + offs[i]) % 16 = 0
 =============================================================================
